@@ -585,6 +585,7 @@ type simOpts struct {
 
 type sim struct {
 	lingerRemoved bool
+	unreach       bool // lost messages are reported to their sender as "target unreachable"
 	fail    func(sig string, format string, args ...interface{})
 	opts    simOpts
 	reps    map[uint64]*simReplica
@@ -1127,6 +1128,7 @@ func (s *sim) deliverMsg(m pb.Message) {
 			s.statusQ = append(s.statusQ, snapStatus{to: m.From, about: m.To, reject: true})
 		}
 		s.tr("  lost %s %d->%d (link down)", m.Type, m.From, m.To)
+		s.reportUnreachable(m)
 		return
 	}
 	r, ok := s.reps[m.To]
@@ -1135,6 +1137,7 @@ func (s *sim) deliverMsg(m pb.Message) {
 			s.statusQ = append(s.statusQ, snapStatus{to: m.From, about: m.To, reject: true})
 		}
 		s.tr("  lost %s %d->%d (target not running)", m.Type, m.From, m.To)
+		s.reportUnreachable(m)
 		return
 	}
 	s.tr("deliver %s %d->%d t%d idx%d commit%d rej%v ents%d", m.Type, m.From, m.To, m.Term, m.LogIndex, m.Commit, m.Reject, len(m.Entries))
@@ -1189,6 +1192,21 @@ func (s *sim) hasPendingRecover(r *simReplica) bool {
 		}
 	}
 	return false
+}
+
+// reportUnreachable: the transport tells the sender that the target of a message it
+// could not deliver is unreachable (NodeHost: failed send -> Unreachable message ->
+// Peer.ReportUnreachableNode), when the case's shape says so.
+func (s *sim) reportUnreachable(m pb.Message) {
+	if !s.unreach || (m.Type != pb.Replicate && m.Type != pb.Heartbeat && m.Type != pb.InstallSnapshot) {
+		return
+	}
+	snd, ok := s.reps[m.From]
+	if !ok || !snd.running() {
+		return
+	}
+	s.flag("unreachable-reported")
+	s.input(snd, "unreachable", func() error { return snd.peer.ReportUnreachableNode(m.To) })
 }
 
 func (s *sim) deliverStatus(k int) {
